@@ -39,6 +39,10 @@ CHECKS = {
                   "in-flight queue in each direction: every interleaving of client requests, request / report deliveries and exchange actions "
                   "up to a depth bound (each move a solver-chosen index), plus step cells for ClOrdID chaining (symbolic roots, regex) and "
                   "request-after-reject; oracle = convergence, fresh ClOrdIDs, enum-member status, one outstanding request."),
+    "C15": ("2 (C15)", "FIXSchema.validate on instances generated from an independent reading of both XML dictionaries: the valid instance, then "
+                  "one fault at a solver-chosen position (dropped member, foreign / unknown tag, symbolic value against enumeration or type, "
+                  "plain-vs-group, group member order / first / foreign / missing member at every nesting depth), statelessness of the schema "
+                  "object, and rotations / transpositions of the <components> declarations."),
     "C08": ("2 (C08)", "Operation sequences on the real Journaler (FakeSQLite) with the crash slot as a solver variable over every point "
                   "before/after every SQL statement and commit, plus normal close; after the crash a fresh Journaler must show a state "
                   "at an operation boundary. Counterexamples and sampled witnesses are re-run on the real sqlite3 with os._exit in a child."),
